@@ -31,10 +31,11 @@ def run(ctx):
     ctx.rule("R06.4", "a response is popped and serialized only when the unsent buffer is None; the buffer becomes exactly the serialized vector")
     ctx.rule("R06.5", "a full write sets the unsent buffer to None")
     ctx.rule("R06.6", "pending_write consults both the queue and the unsent buffer")
-    ctx.rule("R06.7", "the response queue is mutated only by push_back / pop_front / clear")
+    ctx.rule("R06.7", "the response queue is mutated only by push_back / pop_front / clear; it is emptied only by clear_write_buffer, which runs only after a failed write (try_write) or on a hang-up event (requests)")
     ctx.guarded("R06.1", "paths", lambda: paths(ctx))
     ctx.guarded("R06.6", "pending_write", lambda: pending(ctx))
     ctx.guarded("R06.7", "fifo", lambda: fifo(ctx, "R06.7", "response_queue", {"push_back", "pop_front", "clear"}))
+    ctx.guarded("R06.7", "discard-callers", lambda: discard_callers(ctx, "R06.7"))
     ctx.rule("R06.8", "discarding pending output really discards it: clear_write_buffer empties the queue and sets the unsent buffer to None (= C09 R09.4)")
     ctx.rule("R06.9", "one try_write per readiness notification: a second write on a full non-blocking socket reports EAGAIN and a healthy connection loses its output (= C08 R08.4)")
 
@@ -44,6 +45,31 @@ def run(ctx):
         c09.single_io(ctx, "R06.9")
 
     ctx.guarded("R06.8", "shared", shared)
+
+
+def discard_callers(ctx, rule):
+    """Who may throw pending output away: try_write (decided per write outcome by R06.3) and the hang-up branch of requests()."""
+    from .util import known_callers
+    from . import srv
+    facts = ctx.facts
+    cw, ccw = conn.P + "clear_write_buffer", srv.CC + "clear_write_buffer"
+    callers = set(known_callers(facts, cw))
+    if facts.has_fn(ccw):
+        callers |= set(known_callers(facts, ccw))
+    callers -= {ccw}
+    ctx.ob(rule, "clear_write_buffer|callers", callers <= {conn.TRY_WRITE, srv.REQUESTS} and conn.TRY_WRITE in callers, "clear_write_buffer is reached from %s (allowed: try_write, requests)" % sorted(callers))
+    fn, lv = leaves(ctx, srv.REQUESTS)
+    n = 0
+    for lf in lv:
+        clr = srv.calls(lf, ccw) or srv.calls(lf, cw)
+        if not clr:
+            continue
+        n += 1
+        fl = srv.flags_on_path(lf)
+        hang = any(fl.get(f) for f in (srv.EV_ERR, srv.EV_HUP, srv.EV_RDHUP))
+        ctx.ob(rule, "clear_write_buffer|requests|only-on-hangup", hang, "requests() discards a connection's pending output only on a path where ERROR, HANG_UP or READ_HANG_UP was reported for it", fn.loc(clr[0][1]))
+    if srv.REQUESTS in callers:
+        ctx.ob(rule, "clear_write_buffer|requests|floor", n >= 1, "%d discarding path(s) of requests() inspected (floor 1)" % n, fn.loc(0))
 
 
 def direct_subterms(t):
@@ -303,6 +329,12 @@ def fifo(ctx, rule, field, allowed, floor=3):
                         if ty.get("k") == "ref" and ty.get("mut"):
                             inner += param_consumers(g, i + 1)
                     ok = bool(inner) and all(last_seg(x["callee"].get("path") or "") in allowed for x in inner)
+            if ok and last_seg(callee) in ("clear", "truncate", "drain", "retain", "split_off") and field == "response_queue":
+                # discarding queued responses is the business of clear_write_buffer alone (the documented reaction to a
+                # failed write / hang-up); anywhere else complete responses are lost without any write having failed
+                from .util import roots_of
+                roots = roots_of(facts, fn.name) or {fn.name}
+                ctx.ob(rule, "%s|discarded-only-by-clear_write_buffer|%s" % (field, fn.name.split("::")[-1]), roots <= {conn.P + "clear_write_buffer"}, "self.%s is emptied (%s) in %s, on behalf of %s" % (field, last_seg(callee), fn.name, sorted(roots)), fn.loc(site[0], site[1]))
             ctx.ob(rule, "%s|%s|%s" % (field, fn.name.split("::")[-1], last_seg(callee) if callee else "escapes"), ok, "&mut self.%s is handed to %s in %s (allowed: %s)" % (field, callee, fn.name, sorted(allowed)), fn.loc(site[0], site[1]))
     for w in field_writers(facts, conn.HC, field):
         if w[3] in ("assign", "assign-inside", "call-result"):
